@@ -1233,6 +1233,9 @@ func (w *_structAssembler) AssembleValue() datamodel.NodeAssembler {
 	if len(ftyp.Index) > 1 {
 		return _errorAssembler{fmt.Errorf("bindnode TODO: embedded fields")}
 	}
+	if w.doneFields[ftyp.Index[0]] {
+		return _errorAssembler{datamodel.ErrRepeatedMapKey{Key: basicnode.NewString(name)}}
+	}
 	w.doneFields[ftyp.Index[0]] = true
 	fval := w.val.FieldByIndex(ftyp.Index)
 	if field.IsOptional() {
@@ -1259,6 +1262,10 @@ func (w *_structAssembler) AssembleEntry(k string) (datamodel.NodeAssembler, err
 		return nil, err
 	}
 	am := w.AssembleValue()
+	if am, ok := am.(_errorAssembler); ok {
+		// An unknown or repeated field: report it now, when the key is supplied.
+		return nil, am.err
+	}
 	return am, nil
 }
 
